@@ -19,6 +19,9 @@ class C14(MemSpec):
     assumptions_text = ['cstl_array_set is given a buffer that really holds nm elements of sz bytes (documented precondition)',
                         'array objects are only accessed through the cstl_array functions']
 
+    def more_variants(self, cases, tier, seed):
+        return memref.relnull_variants(cases, every=2)
+
     def closure(self, tier):
         if tier == 'quick':
             cases, st = self.closures([('array', 120)])
